@@ -321,18 +321,21 @@ def mentions(n, name):
     return any(mentions(c, name) for c in n.get("inner", []))
 
 
+VALNAME = ["val"]      # the variable the guards talk about (`val` in the converters, `tmp` in the text parsers)
+
+
 def val_conversion(n, src):
     """n = `val` converted to some arithmetic type by at most one implicit/explicit conversion.
     Returns the model name of the resulting type."""
     n = strip_parens(n)
-    if is_ref(n, "val"):
+    if is_ref(n, VALNAME[0]):
         return src
     if n.get("kind") in ("ImplicitCastExpr", "CStyleCastExpr") and \
             n.get("castKind") in ("IntegralCast", "IntegralToFloating", "FloatingCast", "NoOp"):
         (c,) = kids(n)
-        if is_ref(c, "val"):
+        if is_ref(c, VALNAME[0]):
             return cty(n["type"], n)
-    fail("expected `val` with at most one conversion", n)
+    fail("expected `%s` with at most one conversion" % VALNAME[0], n)
 
 
 CMP_NAMES = {"<": "lt", "<=": "le", ">": "gt", ">=": "ge", "==": "eq", "!=": "ne"}
@@ -399,11 +402,11 @@ def parse_atom(n, src, env):
     if n.get("kind") == "BinaryOperator" and n.get("opcode") in CMP_NAMES:
         a, b = kids(n)
         op = n["opcode"]
-        if mentions(b, "val") and not mentions(a, "val"):
+        if mentions(b, VALNAME[0]) and not mentions(a, VALNAME[0]):
             a, b = b, a
             op = CMP_FLIP[op]
-        if mentions(b, "val") or not mentions(a, "val"):
-            fail("comparison is not `val <op> constant`", n)
+        if mentions(b, VALNAME[0]) or not mentions(a, VALNAME[0]):
+            fail("comparison is not `%s <op> constant`" % VALNAME[0], n)
         ct = val_conversion(a, src)
         kv, kt = const_eval(b, env)
         if CTYPES[kt][0] != ct:
@@ -678,14 +681,19 @@ def parse_converter(repo, relpath, name, env, type_int):
 
 def parse_type_int(repo, name):
     """types/type_int.c: `switch (len) { case sizeof(T): return 'c'; ... default: return 0; }` -> {size: code}"""
-    fn = function_def(repo, "mptcore/types/type_int.c", name)
+    return parse_return_switch(repo, "mptcore/types/type_int.c", name, "len", {}, 0)
+
+
+def parse_return_switch(repo, relpath, name, var, env, want_default):
+    """a function that is one `switch (var)` of `case K: return V;` and `default: return D;` -> {K: V}"""
+    fn = function_def(repo, relpath, name)
     (body,) = [c for c in kids(fn) if c.get("kind") == "CompoundStmt"]
     st = kids(body)
     if len(st) != 1 or st[0].get("kind") != "SwitchStmt":
         fail("%s: expected a single switch" % name, body)
     sk = kids(st[0])
-    if not is_ref(sk[0], "len"):
-        fail("%s: expected switch (len)" % name, st[0])
+    if not is_ref(sk[0], var):
+        fail("%s: expected switch (%s)" % (name, var), st[0])
     items = flatten_switch(sk[1])
     table = {}
     i = 0
@@ -695,14 +703,14 @@ def parse_type_int(repo, name):
             if i + 1 >= len(items) or items[i + 1][0] != "stmt" or items[i + 1][1].get("kind") != "ReturnStmt":
                 fail("%s: label without an immediate return" % name, sk[1])
             (rv,) = kids(items[i + 1][1])
-            v, _ = const_eval(rv, {})
+            v, _ = const_eval(rv, env)
             if it[0] == "case":
-                size, _ = const_eval(it[1], {})
+                size, _ = const_eval(it[1], env)
                 if size in table:
-                    fail("%s: duplicate size" % name, it[1])
+                    fail("%s: duplicate case" % name, it[1])
                 table[size] = v
-            elif v != 0:
-                fail("%s: default does not return 0" % name, rv)
+            elif v != want_default:
+                fail("%s: default does not return %d" % (name, want_default), rv)
             i += 2
         else:
             fail("%s: statement outside the grammar" % name, it[1])
@@ -772,6 +780,407 @@ def extract_convint(repo):
         if fname not in names:
             fail("dispatch target %s of type %d is not a translated converter" % (fname, code))
     return {"functions": fns, "dispatch": disp, "type_int": type_int, "type_uint": type_uint}
+
+
+# --------------------------------------------------------------------------------------- text parsers (C07)
+
+def is_errno(n):
+    n = unwrap(n)
+    if n.get("kind") == "UnaryOperator" and n.get("opcode") == "*":
+        c = unwrap(kids(n)[0])
+        return c.get("kind") == "CallExpr" and mentions(c, "__errno_location")
+    return False
+
+
+ERANGE = 34
+
+
+def parse_text_cond(n, tmp_ty, env):
+    """boolean condition over `errno == ERANGE`, comparisons of tmp, `range`  ->  DNF: list of conjunctions of atoms.
+    (None of these atoms can fault, so distributing && over || preserves the meaning.)"""
+    n = strip_parens(n)
+    if n.get("kind") == "ImplicitCastExpr" and n.get("castKind") in ("PointerToBoolean", "LValueToRValue", "IntegralToBoolean"):
+        inner = strip_parens(kids(n)[0])
+        if is_ref(inner, "range") or is_ref(n, "range"):
+            return [[{"kind": "range"}]]
+    if is_ref(n, "range"):
+        return [[{"kind": "range"}]]
+    if n.get("kind") == "BinaryOperator" and n.get("opcode") == "||":
+        a, b = kids(n)
+        return parse_text_cond(a, tmp_ty, env) + parse_text_cond(b, tmp_ty, env)
+    if n.get("kind") == "BinaryOperator" and n.get("opcode") == "&&":
+        a, b = kids(n)
+        return [x + y for x in parse_text_cond(a, tmp_ty, env) for y in parse_text_cond(b, tmp_ty, env)]
+    if n.get("kind") == "BinaryOperator" and n.get("opcode") in ("==", "!="):
+        a, b = kids(n)
+        if is_errno(b):
+            a, b = b, a
+        if is_errno(a):
+            v, _ = const_eval(b, env)
+            if v != ERANGE or n["opcode"] != "==":
+                fail("errno test is not `errno == ERANGE`", n)
+            return [[{"kind": "erange"}]]
+    if mentions(n, "range"):
+        # `tmp < range[0] || tmp > range[1]`, only reachable with a range argument: kept opaque
+        return [[{"kind": "rangecmp"}]]
+    return [[parse_atom(n, tmp_ty, env)]]
+
+
+def emit_text_atoms(conds):
+    disj = []
+    for conj in conds:
+        atoms = []
+        for a in conj:
+            if a["kind"] == "erange":
+                atoms.append(".erange")
+            elif a["kind"] == "minus":
+                atoms.append(".minus")
+            elif a["kind"] in ("range", "rangecmp"):
+                atoms.append(".rangeArg")
+            elif a["kind"] == "cmp":
+                atoms.append(".val (.cmp .%s .%s %s)" % (a["op"], a["cty"], lean_int(a["k"])))
+            else:
+                fail("atom %r cannot occur in a text parser" % a["kind"])
+        disj.append("[" + ", ".join(atoms) + "]")
+    return "[" + ", ".join(disj) + "]"
+
+
+def single_stmt(n):
+    if n.get("kind") == "CompoundStmt" and len(kids(n)) == 1:
+        return kids(n)[0]
+    return n
+
+
+def is_minus_scan(a, b, c):
+    """`sign = src; while (isspace(*sign)) ++sign; if (*sign == '-') return ERR;` -> ERR or None"""
+    if not (a.get("kind") == "BinaryOperator" and a.get("opcode") == "=" and refs_var(kids(a)[0], "sign") and is_ref(kids(a)[1], "src")):
+        return None
+    if not (b.get("kind") == "WhileStmt" and mentions(kids(b)[0], "_ISspace") and mentions(kids(b)[0], "sign")):
+        return None
+    body = single_stmt(kids(b)[1])
+    if not (body.get("kind") == "UnaryOperator" and body.get("opcode") == "++" and mentions(body, "sign")):
+        return None
+    if c.get("kind") != "IfStmt" or len(kids(c)) != 2:
+        return None
+    cond = strip_parens(kids(c)[0])
+    if not (cond.get("kind") == "BinaryOperator" and cond.get("opcode") == "==" and mentions(kids(cond)[0], "sign")):
+        return None
+    try:
+        v, _ = const_eval(kids(cond)[1], {})
+    except TranslateError:
+        return None
+    if v != 45:
+        return None
+    return parse_error_return(single_stmt(kids(c)[1]))
+
+
+def parse_store_tmp(n, tmp_ty):
+    """`if (val) *((T *) val) = tmp;` / `if (val) *val = tmp;` / unguarded -> (store type, guarded) or None"""
+    guarded = False
+    if n.get("kind") == "IfStmt" and len(kids(n)) == 2 and is_ref(kids(n)[0], "val"):
+        guarded = True
+        n = single_stmt(kids(n)[1])
+    if n.get("kind") != "BinaryOperator" or n.get("opcode") != "=":
+        return None
+    lhs, rhs = kids(n)
+    lhs = strip_parens(lhs)
+    if lhs.get("kind") != "UnaryOperator" or lhs.get("opcode") != "*" or not mentions(lhs, "val"):
+        return None
+    st = cty(lhs["type"], lhs)
+    old = VALNAME[0]
+    VALNAME[0] = "tmp"
+    try:
+        got = val_conversion(rhs, tmp_ty)
+    finally:
+        VALNAME[0] = old
+    if got != st:
+        fail("stored expression is not `tmp` converted to the pointee type", n)
+    return st, guarded
+
+
+def parse_text_parser(repo, relpath, name, env):
+    fn = function_def(repo, relpath, name)
+    (body,) = [c for c in kids(fn) if c.get("kind") == "CompoundStmt"]
+    st = [x for x in kids(body)]
+    tmp_ty = None
+    i = 0
+    while i < len(st) and st[i].get("kind") == "DeclStmt":
+        for vd in kids(st[i]):
+            if vd.get("name") == "tmp":
+                tmp_ty = cty(vd["type"], vd)
+        i += 1
+    if tmp_ty is None:
+        fail("%s: no variable tmp" % name, body)
+    st = st[i:]
+    # null test, empty test
+    def is_null_test(n):
+        return n.get("kind") == "IfStmt" and parse_error_return(single_stmt(kids(n)[1])) == "BadArgument" and mentions(kids(n)[0], "src")
+    def is_empty_test(n):
+        if n.get("kind") != "IfStmt" or len(kids(n)) != 2:
+            return False
+        c = strip_parens(kids(n)[0])
+        r = single_stmt(kids(n)[1])
+        if not (c.get("kind") == "UnaryOperator" and c.get("opcode") == "!" and mentions(c, "src")):
+            return False
+        if r.get("kind") != "ReturnStmt":
+            return False
+        try:
+            v, _ = const_eval(kids(r)[0], {})
+        except TranslateError:
+            return False
+        return v == 0
+    if len(st) < 4 or not is_null_test(st[0]) or not is_empty_test(st[1]):
+        fail("%s: expected the null and the empty-string tests" % name, body)
+    st = st[2:]
+    errno_reset = False
+    if st[0].get("kind") == "BinaryOperator" and st[0].get("opcode") == "=" and is_errno(kids(st[0])[0]):
+        v, _ = const_eval(kids(st[0])[1], {})
+        if v != 0:
+            fail("%s: errno assigned something other than 0" % name, st[0])
+        errno_reset = True
+        st = st[1:]
+    call = st[0]
+    if not (call.get("kind") == "BinaryOperator" and call.get("opcode") == "=" and refs_var(kids(call)[0], "tmp")):
+        fail("%s: expected tmp = strto*(...)" % name, call)
+    ce = unwrap(kids(call)[1])
+    if ce.get("kind") != "CallExpr":
+        fail("%s: expected tmp = strto*(...)" % name, call)
+    callee = unwrap(kids(ce)[0]).get("referencedDecl", {}).get("name")
+    if callee not in ("strtoimax", "strtoumax", "strtof", "strtod", "strtold"):
+        fail("%s: unexpected conversion function %r" % (name, callee), call)
+    args = kids(ce)[1:]
+    if not is_ref(args[0], "src") or not mentions(args[1], "end") or (len(args) == 3 and not is_ref(args[2], "base")):
+        fail("%s: unexpected arguments of %s" % (name, callee), call)
+    st = st[1:]
+    # no-conversion block
+    nc = st[0]
+    ok = False
+    if nc.get("kind") == "IfStmt" and len(kids(nc)) == 2:
+        c = strip_parens(kids(nc)[0])
+        if c.get("kind") == "BinaryOperator" and c.get("opcode") == "==" and mentions(c, "end") and mentions(c, "src"):
+            blk = kids(kids(nc)[1])
+            if len(blk) == 2 and blk[0].get("kind") == "WhileStmt" and mentions(blk[0], "_ISspace") and blk[1].get("kind") == "ReturnStmt":
+                rets = [parse_error_return(x) for x in walk(blk[0]) if x.get("kind") == "ReturnStmt"]
+                v, _ = const_eval(kids(blk[1])[0], {})
+                if rets == ["BadType"] and v == 0:
+                    ok = True
+    if not ok:
+        fail("%s: expected the `end == src` block (blank text -> 0, else BadType)" % name, nc)
+    st = st[1:]
+    # guards up to the switch / the store
+    guards = []
+    old = VALNAME[0]
+    VALNAME[0] = "tmp"
+    try:
+        k = 0
+        widths, dflt = [], None
+        while k < len(st):
+            n = st[k]
+            if n.get("kind") == "SwitchStmt":
+                sk = kids(n)
+                if not is_ref(sk[0], "vlen"):
+                    fail("%s: switch on something other than vlen" % name, n)
+                items = flatten_switch(sk[1])
+                j = 0
+                while j < len(items):
+                    it = items[j]
+                    if it[0] == "default":
+                        dflt = parse_error_return(items[j + 1][1]) if j + 1 < len(items) and items[j + 1][0] == "stmt" else None
+                        if dflt is None:
+                            fail("%s: default is not `return MPT_ERROR(X)`" % name, sk[1])
+                        j += 2
+                        continue
+                    if it[0] != "case":
+                        fail("%s: statement outside a case" % name, it[1])
+                    size, _ = const_eval(it[1], env)
+                    j += 1
+                    wg, store = [], None
+                    while j < len(items) and items[j][0] == "stmt" and items[j][1].get("kind") != "BreakStmt":
+                        s2 = items[j][1]
+                        stt = parse_store_tmp(s2, tmp_ty)
+                        if stt is not None:
+                            if store is not None:
+                                fail("%s: two stores in case %d" % (name, size), s2)
+                            store = stt
+                        elif s2.get("kind") == "IfStmt" and len(kids(s2)) == 2 and parse_error_return(single_stmt(kids(s2)[1])):
+                            if store is not None:
+                                fail("%s: guard after the store in case %d" % (name, size), s2)
+                            wg.append({"conds": parse_text_cond(kids(s2)[0], tmp_ty, env), "err": parse_error_return(single_stmt(kids(s2)[1]))})
+                        else:
+                            fail("%s: unsupported statement in case %d" % (name, size), s2)
+                        j += 1
+                    if j >= len(items) or items[j][0] != "stmt" or items[j][1].get("kind") != "BreakStmt" or store is None:
+                        fail("%s: case %d does not end in store; break" % (name, size), sk[1])
+                    j += 1
+                    widths.append({"size": size, "guards": wg, "store": store[0], "guarded": store[1]})
+                k += 1
+                break
+            stt = parse_store_tmp(n, tmp_ty)
+            if stt is not None:
+                widths.append({"size": CTYPES[[c for c in CTYPES if CTYPES[c][0] == tmp_ty][0]][1] // 8, "guards": [], "store": stt[0], "guarded": stt[1]})
+                k += 1
+                break
+            if k + 2 < len(st):
+                err = is_minus_scan(st[k], st[k + 1], st[k + 2])
+                if err:
+                    guards.append({"conds": [[{"kind": "minus"}]], "err": err})
+                    k += 3
+                    continue
+            if n.get("kind") == "IfStmt" and len(kids(n)) == 2 and parse_error_return(single_stmt(kids(n)[1])):
+                guards.append({"conds": parse_text_cond(kids(n)[0], tmp_ty, env), "err": parse_error_return(single_stmt(kids(n)[1]))})
+                k += 1
+                continue
+            fail("%s: statement outside the grammar" % name, n)
+        rest = st[k:]
+    finally:
+        VALNAME[0] = old
+    if not widths:
+        fail("%s: no store found" % name, body)
+    # `return end - src;`
+    if len(rest) != 1 or rest[0].get("kind") != "ReturnStmt":
+        fail("%s: expected `return end - src;` at the end" % name, body)
+    e = unwrap(kids(rest[0])[0])
+    if not (e.get("kind") == "BinaryOperator" and e.get("opcode") == "-" and mentions(kids(e)[0], "end") and mentions(kids(e)[1], "src")):
+        fail("%s: expected `return end - src;` at the end" % name, rest[0])
+    return {"name": name, "strto": callee, "tmp": tmp_ty, "errno_reset": errno_reset, "guards": guards, "widths": widths,
+            "dflt": dflt or "BadType"}
+
+
+INT_WRAPPERS = ["mpt_cint8", "mpt_cint16", "mpt_cint32", "mpt_cint64", "mpt_cuint8", "mpt_cuint16", "mpt_cuint32", "mpt_cuint64"]
+
+
+def parse_wrapper(repo, name, env):
+    """GET_STRING_FCN instance: `if ((ret = get(&tmp, sizeof(type), src, base)) <= 0) return ret; [range test]
+    if (val) *val = tmp; return ret;` -> (parser function, size)"""
+    fn = function_def(repo, "mptcore/convert/convert_int.c", name)
+    (body,) = [c for c in kids(fn) if c.get("kind") == "CompoundStmt"]
+    st = [x for x in kids(body) if x.get("kind") != "DeclStmt"]
+    if len(st) != 4 or [x.get("kind") for x in st] != ["IfStmt", "IfStmt", "IfStmt", "ReturnStmt"]:
+        fail("%s: unexpected wrapper body" % name, body)
+    calls = [n for n in walk(st[0]) if n.get("kind") == "CallExpr"]
+    if len(calls) != 1:
+        fail("%s: expected one call" % name, st[0])
+    ck = kids(calls[0])
+    callee = unwrap(ck[0]).get("referencedDecl", {}).get("name")
+    size, _ = const_eval(ck[2], env)
+    if callee not in ("_mpt_convert_int", "_mpt_convert_uint") or not mentions(ck[1], "tmp") or not is_ref(ck[3], "src") or not is_ref(ck[4], "base"):
+        fail("%s: unexpected call" % name, calls[0])
+    cond0 = strip_parens(kids(st[0])[0])
+    if not (cond0.get("kind") == "BinaryOperator" and cond0.get("opcode") == "<=" and is_ref(single_stmt(kids(st[0])[1]).get("inner", [{}])[0], "ret")):
+        fail("%s: expected `if ((ret = ...) <= 0) return ret;`" % name, st[0])
+    if not mentions(kids(st[1])[0], "range") or parse_error_return(single_stmt(kids(st[1])[1])) is None:
+        fail("%s: expected the range test" % name, st[1])
+    vd = [v for d in kids(body) if d.get("kind") == "DeclStmt" for v in kids(d) if v.get("name") == "tmp"]
+    if len(vd) != 1 or sizeof(vd[0]["type"], vd[0]) != size:
+        fail("%s: sizeof argument does not match the type of tmp" % name, body)
+    stt = parse_store_tmp(st[2], cty(vd[0]["type"], vd[0]))
+    if stt is None or not stt[1]:
+        fail("%s: expected `if (val) *val = tmp;`" % name, st[2])
+    if not is_ref(kids(st[3])[0], "ret"):
+        fail("%s: expected `return ret;`" % name, st[3])
+    return {"name": name, "parser": callee, "size": size}
+
+
+def parse_number_dispatch(repo, env):
+    """mpt_convert_number: the switch (fmt) -> [(code, callee, base)]; also checks the 'c' block and the 'l' alias"""
+    fn = function_def(repo, "mptcore/convert/convert_number.c", "mpt_convert_number")
+    (body,) = [c for c in kids(fn) if c.get("kind") == "CompoundStmt"]
+    sw = [c for c in kids(body) if c.get("kind") == "SwitchStmt"]
+    if len(sw) != 1 or not is_ref(kids(sw[0])[0], "fmt"):
+        fail("mpt_convert_number: expected one switch (fmt)", body)
+    out = []
+    items = flatten_switch(kids(sw[0])[1])
+    j = 0
+    while j < len(items):
+        it = items[j]
+        if it[0] == "default":
+            j += 2
+            continue
+        if it[0] != "case" or j + 1 >= len(items) or items[j + 1][0] != "stmt" or items[j + 1][1].get("kind") != "ReturnStmt":
+            fail("mpt_convert_number: case without an immediate return", sw[0])
+        code, _ = const_eval(it[1], env)
+        ce = unwrap(kids(items[j + 1][1])[0])
+        if ce.get("kind") != "CallExpr":
+            fail("mpt_convert_number: case %d does not return a call" % code, ce)
+        ck = kids(ce)
+        callee = unwrap(ck[0]).get("referencedDecl", {}).get("name")
+        if not refs_var(unwrap(ck[1]) if unwrap(ck[1]).get("kind") == "DeclRefExpr" else kids(unwrap(ck[1]))[0] if kids(unwrap(ck[1])) else ck[1], "dest") \
+                or not is_ref(ck[2], "src"):
+            fail("mpt_convert_number: case %d: unexpected arguments" % code, ce)
+        rest = [const_eval(unwrap(a), env)[0] for a in ck[3:]]
+        if len(rest) == 2:
+            base, rng = rest
+        elif len(rest) == 1:
+            base, rng = 0, rest[0]
+        else:
+            fail("mpt_convert_number: case %d: unexpected arguments" % code, ce)
+        if rng != 0:
+            fail("mpt_convert_number: case %d passes a range" % code, ce)
+        out.append((code, callee, base))
+        j += 2
+    # the alias `if (fmt == 'l') fmt = mpt_type_int(sizeof(long));` in front of the switch
+    alias = None
+    for c in kids(body):
+        if c.get("kind") == "IfStmt":
+            cond = strip_parens(kids(c)[0])
+            if cond.get("kind") == "BinaryOperator" and cond.get("opcode") == "==" and is_ref(kids(cond)[0], "fmt"):
+                v, _ = const_eval(kids(cond)[1], env)
+                if v == ord("l"):
+                    calls = [n for n in walk(c) if n.get("kind") == "CallExpr" and mentions(n, "mpt_type_int")]
+                    if len(calls) != 1:
+                        fail("mpt_convert_number: 'l' alias is not mpt_type_int(sizeof(long))", c)
+                    a, _ = const_eval(kids(calls[0])[1], env)
+                    alias = (v, a)
+    return out, alias
+
+
+def extract_convtext(repo):
+    env = enum_constants(repo, "mptcore/convert/convert_int.c")
+    data = {"parsers": [parse_text_parser(repo, "mptcore/convert/convert_int.c", n, env) for n in ("_mpt_convert_int", "_mpt_convert_uint")]}
+    for rel, n in (("mptcore/convert/cfloat.c", "mpt_cfloat"), ("mptcore/convert/cdouble.c", "mpt_cdouble"), ("mptcore/convert/cldouble.c", "mpt_cldouble")):
+        data["parsers"].append(parse_text_parser(repo, rel, n, env))
+    data["wrappers"] = [parse_wrapper(repo, n, env) for n in INT_WRAPPERS]
+    env2 = enum_constants(repo, "mptcore/convert/convert_number.c")
+    data["dispatch"], alias = parse_number_dispatch(repo, env2)
+    ti = parse_type_int(repo, "mpt_type_int")
+    data["alias"] = None if alias is None else (alias[0], ti.get(alias[1], 0))
+    known = {w["name"] for w in data["wrappers"]} | {p["name"] for p in data["parsers"]}
+    for code, callee, base in data["dispatch"]:
+        if callee not in known:
+            fail("mpt_convert_number: case %d calls %s, which is not translated" % (code, callee))
+    return data
+
+
+def emit_convtext(data):
+    L = ["/- GENERATED by translate/cextract.py from mptcore/convert/convert_int.c, convert_number.c, cfloat.c, cdouble.c,",
+         "   cldouble.c -- rewritten on every run, do not edit. Data only. -/",
+         "import MptModel.Impl.ConvTable", "namespace Mpt.Generated.Text", "open Mpt Mpt.Conv", ""]
+    def guards(gl):
+        return "[" + ", ".join("{ conds := %s, err := .%s }" % (emit_text_atoms(g["conds"]), g["err"]) for g in gl) + "]"
+    for p in data["parsers"]:
+        L.append("def %s : TextParser :=" % p["name"].lstrip("_"))
+        L.append('  { name := "%s", strto := "%s", tmpTy := .%s, errnoReset := %s, dflt := .%s,' % (
+            p["name"], p["strto"], p["tmp"], "true" if p["errno_reset"] else "false", p["dflt"]))
+        L.append("    guards := %s," % guards(p["guards"]))
+        L.append("    widths := [")
+        L.append(",\n".join("      { size := %d, guards := %s, store := .%s, guarded := %s }" % (
+            w["size"], guards(w["guards"]), w["store"], "true" if w["guarded"] else "false") for w in p["widths"]))
+        L.append("    ] }")
+        L.append("")
+    L.append("def parsers : List TextParser := [%s]" % ", ".join(p["name"].lstrip("_") for p in data["parsers"]))
+    L.append("/-- the `mpt_c[u]intN` wrappers: (name, parser, sizeof of the value type) -/")
+    L.append("def wrappers : List (String × String × Nat) := [%s]" % ", ".join('("%s", "%s", %d)' % (w["name"], w["parser"], w["size"]) for w in data["wrappers"]))
+    L.append("/-- `mpt_convert_number`: target code -> (function called, base argument) -/")
+    L.append("def numberDispatch : List (Nat × String × Nat) := [%s]" % ", ".join('(%d, "%s", %d)' % d for d in data["dispatch"]))
+    L.append("def numberAlias : Option (Nat × Nat) := %s" % ("none" if data["alias"] is None else "some (%d, %d)" % data["alias"]))
+    L += ["", "end Mpt.Generated.Text", ""]
+    return "\n".join(L)
+
+
+def generate_convtext(repo, lean_dir):
+    text = emit_convtext(extract_convtext(repo))
+    path = os.path.join(lean_dir, "MptModel", "Generated", "ConvText.lean")
+    return path, write_if_changed(path, text)
 
 
 # --------------------------------------------------------------------------------------- type registry (C06)
@@ -1116,6 +1525,50 @@ def extract_types(repo):
         data[key] = (lo, hi)
     data["type_int"] = parse_type_int(repo, "mpt_type_int")
     data["type_uint"] = parse_type_int(repo, "mpt_type_uint")
+    # _iovec_init: `for (..scalar_sizes..) iovec_types[scalar_sizes[i].type - base].size = sizeof(T);` plus single entries
+    fn = function_def(repo, TYPES_C, "_iovec_init")
+    (body,) = [c for c in kids(fn) if c.get("kind") == "CompoundStmt"]
+    loop_ct, extra = None, []
+
+    def size_assign(n):
+        """`*((size_t *) &iovec_types[IDX].size) = sizeof(T)` -> (IDX expression, C type name) or None"""
+        if n.get("kind") != "BinaryOperator" or n.get("opcode") != "=" or not mentions(kids(n)[0], "iovec_types"):
+            return None
+        subs = [x for x in walk(kids(n)[0]) if x.get("kind") == "ArraySubscriptExpr"]
+        mem = [x for x in walk(kids(n)[0]) if x.get("kind") == "MemberExpr" and x.get("name") == "size"]
+        e = unwrap(kids(n)[1])
+        if len(subs) != 1 or len(mem) != 1 or e.get("kind") != "UnaryExprOrTypeTraitExpr" or "argType" not in e:
+            fail("_iovec_init: unsupported assignment", n)
+        return kids(subs[0])[1], ctype_name(e["argType"])
+    for st in kids(body):
+        k = st.get("kind")
+        if k == "ForStmt":
+            if not mentions(st, "scalar_sizes") or loop_ct is not None:
+                fail("_iovec_init: unexpected loop", st)
+            assigns = [size_assign(x) for x in walk(st) if x.get("kind") == "BinaryOperator" and x.get("opcode") == "=" and mentions(kids(x)[0], "iovec_types")]
+            if len(assigns) != 1 or not mentions(st, "MPT__TypeScalarBase"):
+                fail("_iovec_init: unexpected loop body", st)
+            loop_ct = assigns[0][1]
+        elif k == "BinaryOperator" and st.get("opcode") == "=" and refs_var(kids(st)[0], "iovec_types"):
+            continue          # the calloc
+        elif k == "BinaryOperator":
+            sa = size_assign(st)
+            if sa is None:
+                fail("_iovec_init: statement outside the grammar", st)
+            idx, _ = const_eval(sa[0], env)
+            extra.append((idx, sa[1]))
+        elif k in ("DeclStmt", "CallExpr"):
+            continue
+        else:
+            fail("_iovec_init: statement outside the grammar", st)
+    if loop_ct is None:
+        fail("_iovec_init: loop over scalar_sizes not found")
+    # message/msgvalfmt.c: the wire format codes of the scalar types
+    menv = enum_constants(repo, "mptcore/message/msgvalfmt.c", "MPT_MesgVal")
+    data["msg_env"] = {k: v for k, v in menv.items() if k.startswith("MPT_MesgVal")}
+    data["msg_codes"] = parse_return_switch(repo, "mptcore/message/msgvalfmt.c", "mpt_msgvalfmt_code", "type", menv, -1)
+    data["vector_ctype"] = loop_ct
+    data["vector_extra"] = extra
     # consistency of the interface table with its slot index (slot i holds id base + i)
     for i, (nm, idv) in enumerate(data["core_interfaces"]):
         if idv != data["interface_base"] + i:
@@ -1149,6 +1602,9 @@ def emit_typetables(data):
     for key in ("core_sizes", "scalar_sizes"):
         L.append("def %s : List (Nat × String × Nat) := [%s]" % (
             key.replace("_s", "S"), ", ".join('(%d, "%s", %d)' % r for r in data[key])))
+    L.append("/-- `_iovec_init`: every scalar of `scalar_sizes` gets a vector entry of sizeof(vectorCType); further single entries (index, C type) -/")
+    L.append('def vectorCType : String := "%s"' % data["vector_ctype"])
+    L.append("def vectorExtra : List (Nat × String) := [%s]" % ", ".join('(%d, "%s")' % x for x in data["vector_extra"]))
     L.append("/-- `core_interfaces`: (name as bytes, id); slot i holds id `interfaceBase + i` (checked by the translator) -/")
     L.append("def coreInterfaces : List (List Nat × Nat) := [%s]" % ", ".join(
         "(%s, %d) /- %s -/" % (byte_list(r[0]), r[1], r[0]) for r in data["core_interfaces"]))
@@ -1178,6 +1634,10 @@ def emit_typetables(data):
     L.append("def metaLookup : Nat × Nat := (%d, %d)" % data["meta_lookup"])
     L.append("def typeInt : List (Nat × Nat) := [%s]" % ", ".join("(%d, %d)" % kv for kv in sorted(data["type_int"].items())))
     L.append("def typeUint : List (Nat × Nat) := [%s]" % ", ".join("(%d, %d)" % kv for kv in sorted(data["type_uint"].items())))
+    L.append("/-- `mpt_msgvalfmt_code`: scalar type id -> wire format code; `enum MPT_MesgVal*` of message.h -/")
+    L.append("def msgCodes : List (Nat × Nat) := [%s]" % ", ".join("(%d, %d)" % kv for kv in sorted(data["msg_codes"].items())))
+    for k in sorted(data["msg_env"], key=lambda k: (data["msg_env"][k], k)):
+        L.append("def %s : Nat := %d" % (k[len("MPT_"):], data["msg_env"][k]))
     L += ["", "end Mpt.Generated.TypeTab", ""]
     return "\n".join(L)
 
@@ -1284,6 +1744,14 @@ def main(argv):
                 print(generate_convint(repo, os.path.join(here, "lean")))
             else:
                 sys.stdout.write(emit_convint(data))
+        elif what == "convtext":
+            data = extract_convtext(repo)
+            if "--json" in argv:
+                print(json.dumps(data, indent=1))
+            elif "--write" in argv:
+                print(generate_convtext(repo, os.path.join(here, "lean")))
+            else:
+                sys.stdout.write(emit_convtext(data))
         elif what == "types":
             data = extract_types(repo)
             if "--json" in argv:
